@@ -24,6 +24,7 @@ func (c *Ctx) scopeList() []*ssa.Function {
 
 func runC04(c *Ctx) {
 	R := c.R
+	defer c.slurpExact("C04.S1")
 	R.Technique = "panic-site inventory discharged by a difference-constraint prover over dominating guards, definitions, field-memory, trusted contracts and verified summaries (E-BND/E-LIN); loop classification; dominance rules for error propagation"
 	R.Explanation = "Decides, for every byte sequence a client can send (the obligations are symbolic in all wire integers): (R1) panic freedom of the connection code - every index, slice, make, division and fixed-width decode in the functions reachable from serve and in the documented helpers (ParseParameters, the COPY readers) is proved in range from dominating guards, definitions and contracts; typed context slots justify the non-comma-ok assertions; " +
 		"(R2) every allocation whose size depends on wire data is bounded by the message limit, by a 16-bit count, by the size of data already received or by a constant; (R3) every loop is a counting / range loop with an invariant bound or is input-driven (each iteration performs a read whose failure leaves the loop); (R4) a connection's goroutine ends when its input ends or its transport fails: read errors of the command loop are returned unchanged, the loop returns on them, serve closes the connection; " +
